@@ -123,6 +123,8 @@ def main():
         c = byid[b["case"]]
         b["cls"] = c["cls"]
         b["detail"] = f"in={c['in']} attr=({c['attr']}) observed={ {k[1]: v for k, v in observed.items() if k[0] == b['case']} }"
+    for cid, why in c01.CRASHED.items():
+        bad.append({"case": cid, "conjunct": "runs-to-completion", "cls": "", "detail": f"in={byid[cid]['in']} {why}"})
     if dropped:
         first = sorted(dropped)[0]
         chk.cov["rejected_example"] = {"in": byid[first]["in"], "diag": [d["message"][:160] for d in dropped[first]][:2]}
